@@ -108,6 +108,8 @@ pub struct Opts {
   pub keep_samples: usize,
   /// guard against bookkeeping that grows without bound: BFS levels beyond this are not expanded (reported as incomplete)
   pub max_depth: u32,
+  /// worker threads for the expansion of one BFS level of this layout (1 = sequential)
+  pub inner_threads: usize,
 }
 
 #[derive(Default)]
@@ -189,7 +191,9 @@ fn remove_sorted<T: Ord>(v: &mut Vec<T>, x: &T) { if let Ok(p) = v.binary_search
 
 struct Recorder<'a> {
   viols: &'a mut Vec<Viol>,
+  origins: &'a mut Vec<(u32, u16)>,
   props: u32,
+  origin: (u32, u16),
 }
 
 impl<'a> Recorder<'a> {
@@ -197,6 +201,7 @@ impl<'a> Recorder<'a> {
     if self.props & prop == 0 { return; }
     if let Some(v) = self.viols.iter_mut().find(|v| v.prop == prop && v.clause == clause && v.sig == sig) { v.count += 1; return; }
     self.viols.push(Viol { prop, clause, sig, count: 1, path: path(), detail: detail(), extra: Value::Null });
+    self.origins.push(self.origin);
   }
 }
 
@@ -212,70 +217,51 @@ pub fn events_str(evs: &[Event]) -> String {
   format!("[{}]", v.join(" "))
 }
 
-pub fn explore(layout: &Layout, alphabet: &[KeyCode], opts: &Opts) -> LayoutResult {
-  let mut res = LayoutResult::default();
-  let info = layout_info(layout);
-  let ms = &layout.mappings;
-  let ninp = alphabet.len() * 2 + 1;
+
+/// what one worker collects while expanding states; merged by the driver in state order
+#[derive(Default)]
+struct Local {
+  viols: Vec<Viol>,
+  origins: Vec<(u32, u16)>,
+  ante: BTreeMap<&'static str, u64>,
+  transitions: u64,
+  nontrivial_states: u64,
+  panic: Option<(u32, u16, String)>,
+}
+
+struct Succ { ai: u16, ns: PState, events: Vec<Event>, repeat: Value }
+
+struct Cx<'a> { layout: &'a Layout, info: &'a LayoutInfo, alphabet: &'a [KeyCode], opts: &'a Opts, ninp: usize }
+
+/// All transitions of one state: executes the real step / release_all for every enabled input, evaluates the
+/// predicates of the selected properties, returns the successors.  Pure in (state, layout): safe to run in parallel.
+fn expand_state(cx: &Cx, mapper: &mut Mapper, si: u32, s: &PState, loc: &mut Local) -> Vec<Succ> {
+  let (info, alphabet, opts, ninp) = (cx.info, cx.alphabet, cx.opts, cx.ninp);
+  let ms = &cx.layout.mappings;
   let want = |p: u32| opts.props & p != 0;
-
-  // Mapper::for_layout itself may panic (C14); that is a finding of the exploration
-  let mapper = std::panic::catch_unwind(std::panic::AssertUnwindSafe(|| Mapper::for_layout(layout)));
-  let mut mapper = match mapper {
-    Ok(m) => m,
-    Err(p) => { res.panic = Some((vec![], panic_text(&p))); res.complete = true; return res; }
-  };
-
-  let init = PState { snap: mapper.verif_snapshot(), phys: vec![], out: vec![], mon: Mon::default() };
-  let init_fp = mapper.verif_fingerprint();
-  let mut idx: HashMap<PState, u32> = HashMap::new();
-  let mut states: Vec<PState> = vec![init.clone()];
-  let mut parent: Vec<(u32, u16)> = vec![(0, u16::MAX)];
-  let mut depth_of: Vec<u32> = vec![0];
-  idx.insert(init, 0);
-  let mut queue: VecDeque<u32> = VecDeque::new();
-  queue.push_back(0);
-  let keep_graph = want(P_C06);
-  let mut trans: Vec<u32> = if keep_graph { vec![u32::MAX; ninp] } else { vec![] };
-  let mut osig: Vec<u32> = if keep_graph { vec![0; ninp] } else { vec![] };
-  let mut out_intern: HashMap<(Vec<Event>, Value), u32> = HashMap::new();
-  let mut last_out: Vec<u32> = vec![0]; // interned output of the transition that discovered the state (conformance)
-  let mut viols: Vec<Viol> = vec![];
-  let mut ante: BTreeMap<&'static str, u64> = BTreeMap::new();
-  let mut complete = true;
-  let mut stopped = false;
-
   let inp_of = |ai: usize| -> Inp {
     if ai == ninp - 1 { Inp::ReleaseAll } else if ai % 2 == 0 { Inp::Press(alphabet[ai / 2]) } else { Inp::Release(alphabet[ai / 2]) }
   };
-  let path_of = |parent: &Vec<(u32, u16)>, mut i: u32| -> Vec<Inp> {
-    let mut p = vec![];
-    while parent[i as usize].1 != u16::MAX { p.push(inp_of(parent[i as usize].1 as usize)); i = parent[i as usize].0; }
-    p.reverse();
-    p
-  };
-
-  'bfs: while let Some(si) = queue.pop_front() {
-    if depth_of[si as usize] >= opts.max_depth { complete = false; res.depth_capped = true; continue; }
-    let s = states[si as usize].clone();
-    let mut nontrivial = false;
-    for ai in 0..ninp {
+  let mut succs: Vec<Succ> = Vec::with_capacity(ninp);
+  let mut nontrivial = false;
+  for ai in 0..ninp {
       let inp = inp_of(ai);
       if let Inp::Press(k) = &inp { if !s.phys.contains(k) && s.phys.len() >= opts.n { continue; } }
       mapper.verif_restore(&s.snap);
-      let full_path = || { let mut p = path_of(&parent, si); p.push(inp.clone()); p };
+      let full_path = || -> Vec<Inp> { vec![] }; // paths are derived from the recorded origin (state, input) after the search
       // ---- execute the real code
       let exec = std::panic::catch_unwind(std::panic::AssertUnwindSafe(|| match &inp {
         Inp::Press(k) => mapper.step(Pressed(*k)),
         Inp::Release(k) => mapper.step(Released(*k)),
         Inp::ReleaseAll => StepResult { events: mapper.release_all(), repeat: ResultingRepeat::Disabled },
       }));
-      res.transitions += 1;
+      loc.transitions += 1;
       let r = match exec {
         Ok(r) => r,
-        Err(p) => { res.panic = Some((full_path(), panic_text(&p))); complete = false; stopped = true; break 'bfs; }
+        Err(p) => { loc.panic = Some((si, ai as u16, panic_text(&p))); return succs; }
       };
-      let mut rec = Recorder { viols: &mut viols, props: opts.props };
+      let mut rec = Recorder { viols: &mut loc.viols, origins: &mut loc.origins, props: opts.props, origin: (si, ai as u16) };
+      let ante = &mut loc.ante;
       let mut out = s.out.clone();
       let mut phys = s.phys.clone();
       let mut mon = s.mon.clone();
@@ -650,39 +636,136 @@ pub fn explore(layout: &Layout, alphabet: &[KeyCode], opts: &Opts) -> LayoutResu
           }
         }
       }
-
-      let oid = {
-        let key = (r.events.clone(), repeat_json(&r.repeat));
-        let n = out_intern.len() as u32 + 1;
-        *out_intern.entry(key).or_insert(n)
-      };
-      let ns = PState { snap: mapper.verif_snapshot(), phys, out, mon };
-      let ni = match idx.get(&ns) {
-        Some(&ni) => Some(ni),
-        None => {
-          if states.len() < opts.max_states {
-            let ni = states.len() as u32;
-            idx.insert(ns.clone(), ni);
-            states.push(ns);
-            parent.push((si, ai as u16));
-            depth_of.push(depth_of[si as usize] + 1);
-            last_out.push(oid);
-            if keep_graph { trans.extend(std::iter::repeat(u32::MAX).take(ninp)); osig.extend(std::iter::repeat(0).take(ninp)); }
-            queue.push_back(ni);
-            Some(ni)
-          } else { complete = false; None }
-        }
-      };
-      if keep_graph { if let Some(ni) = ni { trans[si as usize * ninp + ai] = ni; osig[si as usize * ninp + ai] = if ai == ninp - 1 { 0 } else { oid }; } }
-    }
-    if nontrivial { res.nontrivial_states += 1; }
-    // violation first, cap second
-    if opts.stop_prop != 0 && viols.iter().any(|v| v.prop == opts.stop_prop && !v.sig.map(|sg| opts.known.iter().any(|(p, ks)| *p == v.prop && ks == sg)).unwrap_or(false)) {
-      stopped = true; complete = false; break 'bfs;
-    }
-    if !complete && !res.depth_capped { break 'bfs; }
-    if states.len() >= opts.max_states { break 'bfs; }
+      succs.push(Succ { ai: ai as u16, ns: PState { snap: mapper.verif_snapshot(), phys, out, mon }, events: r.events, repeat: repeat_json(&r.repeat) });
   }
+  if nontrivial { loc.nontrivial_states += 1; }
+  succs
+}
+
+pub fn explore(layout: &Layout, alphabet: &[KeyCode], opts: &Opts) -> LayoutResult {
+  let mut res = LayoutResult::default();
+  let info = layout_info(layout);
+  let ms = &layout.mappings;
+  let ninp = alphabet.len() * 2 + 1;
+  let want = |p: u32| opts.props & p != 0;
+
+  // Mapper::for_layout itself may panic (C14); that is a finding of the exploration
+  let mapper = std::panic::catch_unwind(std::panic::AssertUnwindSafe(|| Mapper::for_layout(layout)));
+  let mut mapper = match mapper {
+    Ok(m) => m,
+    Err(p) => { res.panic = Some((vec![], panic_text(&p))); res.complete = true; return res; }
+  };
+
+  let init = PState { snap: mapper.verif_snapshot(), phys: vec![], out: vec![], mon: Mon::default() };
+  let init_fp = mapper.verif_fingerprint();
+  let mut idx: HashMap<PState, u32> = HashMap::new();
+  let mut states: Vec<PState> = vec![init.clone()];
+  let mut parent: Vec<(u32, u16)> = vec![(0, u16::MAX)];
+  let mut depth_of: Vec<u32> = vec![0];
+  idx.insert(init, 0);
+  let mut queue: VecDeque<u32> = VecDeque::new();
+  queue.push_back(0);
+  let keep_graph = want(P_C06);
+  let mut trans: Vec<u32> = if keep_graph { vec![u32::MAX; ninp] } else { vec![] };
+  let mut osig: Vec<u32> = if keep_graph { vec![0; ninp] } else { vec![] };
+  let mut out_intern: HashMap<(Vec<Event>, Value), u32> = HashMap::new();
+  let mut last_out: Vec<u32> = vec![0]; // interned output of the transition that discovered the state (conformance)
+  let mut viols: Vec<Viol> = vec![];
+  let mut ante: BTreeMap<&'static str, u64> = BTreeMap::new();
+  let mut complete = true;
+  let mut stopped = false;
+
+  let inp_of = |ai: usize| -> Inp {
+    if ai == ninp - 1 { Inp::ReleaseAll } else if ai % 2 == 0 { Inp::Press(alphabet[ai / 2]) } else { Inp::Release(alphabet[ai / 2]) }
+  };
+  let path_of = |parent: &Vec<(u32, u16)>, mut i: u32| -> Vec<Inp> {
+    let mut p = vec![];
+    while parent[i as usize].1 != u16::MAX { p.push(inp_of(parent[i as usize].1 as usize)); i = parent[i as usize].0; }
+    p.reverse();
+    p
+  };
+
+  let cx = Cx { layout, info: &info, alphabet, opts, ninp };
+  let mut origins: Vec<(u32, u16)> = vec![];
+  let mut level: Vec<u32> = vec![0];
+  let inner_threads = opts.inner_threads.max(1);
+  'bfs: while !level.is_empty() {
+    if depth_of[level[0] as usize] >= opts.max_depth { complete = false; res.depth_capped = true; break 'bfs; }
+    let mut next_level: Vec<u32> = vec![];
+    // blocks keep the memory for pending successors bounded; merging in state order makes the numbering of states,
+    // the parents and therefore every counter-example independent of the number of threads
+    let block = if inner_threads > 1 { 512 * inner_threads } else { 256 };
+    for chunk in level.chunks(block) {
+      let results: Vec<(Vec<Vec<Succ>>, Local)> = if inner_threads > 1 && chunk.len() >= 64 {
+        let per = (chunk.len() + inner_threads - 1) / inner_threads;
+        let parts: Vec<&[u32]> = chunk.chunks(per).collect();
+        let states_ref = &states;
+        let cx_ref = &cx;
+        std::thread::scope(|sc| {
+          let hs: Vec<_> = parts.iter().map(|part| sc.spawn(move || {
+            let mut m = Mapper::for_layout(cx_ref.layout);
+            let mut loc = Local::default();
+            let mut out = Vec::with_capacity(part.len());
+            for &si in part.iter() { if loc.panic.is_some() { break; } out.push(expand_state(cx_ref, &mut m, si, &states_ref[si as usize], &mut loc)); }
+            (out, loc)
+          })).collect();
+          hs.into_iter().map(|h| h.join().expect("worker")).collect()
+        })
+      } else {
+        let mut loc = Local::default();
+        let mut out = Vec::with_capacity(chunk.len());
+        for &si in chunk.iter() { if loc.panic.is_some() { break; } let s = states[si as usize].clone(); out.push(expand_state(&cx, &mut mapper, si, &s, &mut loc)); }
+        vec![(out, loc)]
+      };
+      // ---- merge, in state order
+      let mut ci = 0usize;
+      for (outs, loc) in results {
+        res.transitions += loc.transitions; res.nontrivial_states += loc.nontrivial_states;
+        for (k, v) in loc.ante { *ante.entry(k).or_insert(0) += v; }
+        for (v, o) in loc.viols.into_iter().zip(loc.origins.into_iter()) {
+          match viols.iter().position(|g| g.prop == v.prop && g.clause == v.clause && g.sig == v.sig) {
+            Some(gi) => { viols[gi].count += v.count; if o < origins[gi] { origins[gi] = o; viols[gi].detail = v.detail; } }
+            None => { viols.push(v); origins.push(o); }
+          }
+        }
+        if let Some((psi, pai, msg)) = loc.panic { let mut p = path_of(&parent, psi); p.push(inp_of(pai as usize)); res.panic = Some((p, msg)); complete = false; stopped = true; }
+        for succs in outs {
+          let si = chunk[ci]; ci += 1;
+          for sc in succs {
+            let ai = sc.ai as usize;
+            let oid = { let key = (sc.events, sc.repeat); let n = out_intern.len() as u32 + 1; *out_intern.entry(key).or_insert(n) };
+            let ni = match idx.get(&sc.ns) {
+              Some(&ni) => Some(ni),
+              None => {
+                if states.len() < opts.max_states {
+                  let ni = states.len() as u32;
+                  idx.insert(sc.ns.clone(), ni);
+                  states.push(sc.ns);
+                  parent.push((si, ai as u16));
+                  depth_of.push(depth_of[si as usize] + 1);
+                  last_out.push(oid);
+                  if keep_graph { trans.extend(std::iter::repeat(u32::MAX).take(ninp)); osig.extend(std::iter::repeat(0).take(ninp)); }
+                  next_level.push(ni);
+                  Some(ni)
+                } else { complete = false; None }
+              }
+            };
+            if keep_graph { if let Some(ni) = ni { trans[si as usize * ninp + ai] = ni; osig[si as usize * ninp + ai] = if ai == ninp - 1 { 0 } else { oid }; } }
+          }
+        }
+      }
+      if stopped { break 'bfs; }
+      // violation first, cap second
+      if opts.stop_prop != 0 && viols.iter().any(|v| v.prop == opts.stop_prop && !v.sig.map(|sg| opts.known.iter().any(|(p, ks)| *p == v.prop && ks == sg)).unwrap_or(false)) {
+        stopped = true; complete = false; break 'bfs;
+      }
+      if !complete { break 'bfs; }
+      if states.len() >= opts.max_states { break 'bfs; }
+    }
+    level = next_level;
+  }
+  // paths of the recorded violations: shortest history to the origin state plus the failing input
+  for (v, o) in viols.iter_mut().zip(origins.iter()) { let mut p = path_of(&parent, o.0); p.push(inp_of(o.1 as usize)); v.path = p; }
 
   res.states = states.len();
   res.depth = *depth_of.iter().max().unwrap_or(&0) as usize;
